@@ -453,6 +453,16 @@ func (x *Exprer) callExpr(c *ssa.CallCommon, v ssa.Value) *Expr {
 	}
 	if fn := x.P.resolveCallee(c); fn != nil {
 		if os.Getenv("XLINT_NO_GETTERS") == "" {
+			// protobuf-style getter `if m != nil { return m.F }; return zero` on the address of a variable, field or
+			// element (never nil) is the field itself
+			if sc := c.StaticCallee(); sc != nil && len(c.Args) == 1 {
+				switch c.Args[0].(type) {
+				case *ssa.Alloc, *ssa.FieldAddr, *ssa.IndexAddr:
+					if f, ok := x.P.nilGuardedGetter(sc); ok {
+						return x.mkField(f, v, args[0])
+					}
+				}
+			}
 			if sc := c.StaticCallee(); sc != nil && x.P.trivialGetter(sc) && sc != x.Fn {
 				if rets := x.P.RetExprs(sc, 0); len(rets) == 1 {
 					return substParams(rets[0], args)
@@ -1360,4 +1370,45 @@ func (x *Exprer) reachingWhole(a *ssa.Alloc, read *ssa.UnOp) *Expr {
 		return args[0]
 	}
 	return mk("upd", typeStr(a.Type()), read, args...)
+}
+
+// nilGuardedGetter recognises `func (m *T) GetF() X { if m != nil { return m.F }; return zero }` and returns F.
+func (p *Program) nilGuardedGetter(fn *ssa.Function) (string, bool) {
+	if r, ok := p.nilGetter[fn]; ok {
+		return r, r != ""
+	}
+	field := ""
+	defer func() { p.nilGetter[fn] = field }()
+	if len(fn.Blocks) != 3 || len(fn.Params) != 1 || fn.Signature.Results().Len() != 1 {
+		return "", false
+	}
+	iff, ok := fn.Blocks[0].Instrs[len(fn.Blocks[0].Instrs)-1].(*ssa.If)
+	if !ok || len(fn.Blocks[0].Instrs) != 2 {
+		return "", false
+	}
+	bo, ok := iff.Cond.(*ssa.BinOp)
+	if !ok || bo.Op != token.NEQ || bo.X != ssa.Value(fn.Params[0]) || !isNilConst(bo.Y) {
+		return "", false
+	}
+	then, els := fn.Blocks[0].Succs[0], fn.Blocks[0].Succs[1]
+	// then: &m.F ; load ; return
+	if len(then.Instrs) != 3 || len(els.Instrs) != 1 {
+		return "", false
+	}
+	fa, ok1 := then.Instrs[0].(*ssa.FieldAddr)
+	ld, ok2 := then.Instrs[1].(*ssa.UnOp)
+	rt, ok3 := then.Instrs[2].(*ssa.Return)
+	re, ok4 := els.Instrs[0].(*ssa.Return)
+	if !ok1 || !ok2 || !ok3 || !ok4 || fa.X != ssa.Value(fn.Params[0]) || ld.Op != token.MUL || ld.X != ssa.Value(fa) || len(rt.Results) != 1 || rt.Results[0] != ssa.Value(ld) || len(re.Results) != 1 {
+		return "", false
+	}
+	if _, isConst := re.Results[0].(*ssa.Const); !isConst {
+		return "", false
+	}
+	st := derefStruct(fa.X.Type())
+	if st == nil {
+		return "", false
+	}
+	field = st.Field(fa.Field).Name()
+	return field, true
 }
